@@ -183,11 +183,17 @@ pub fn gen_seq(seed: u64, ncases: u64, maxlen: u64, zero_ok: bool, rebuilds: boo
         let generator = UuidGenerator::new(Uuid::from_u128(crate::run::NS));
         out.push(format!("case {case}"));
         out.push(format!("new {price}"));
+        if r.chance(1, 8) {
+            // a generator restored from its serialized form, counter at a boundary
+            let c = *r.pick(&[(1u64 << 32) - 2, (1u64 << 53) - 1, (1u64 << 63) - 2, 1u64 << 16, 999_999]);
+            out.push(format!("newgen {c}"));
+        }
         let mut total: u128 = 0; // everything ever supplied (upper bound for sums)
         for _ in 0..len {
             let live: Vec<OrderId> = lvl.iter_orders().iter().map(|o| o.id()).collect();
             if rebuilds && r.chance(1, 12) {
-                let kind = *r.pick(&["snapshot", "from", "package", "json", "data", "serde", "text", "lying-snapshot", "lying-data"]);
+                let kind = *r.pick(&["snapshot", "from", "package", "json", "data", "serde", "text", "lying-snapshot", "lying-data",
+                    "lying-from", "lying-package", "lying-json", "lying-serde", "lying-text"]);
                 out.push(format!("rebuild {kind}"));
                 out.push("state".to_string());
                 // the generator's private level is rebuilt the same way so that liveness and the
@@ -397,6 +403,61 @@ pub fn gen_conc(seed: u64, ncases: u64, scheds_per_prog: u64, out: &Sink) {
             out.push("state".to_string());
             out.push(format!("match {} {}", 1u64 << 40, show_id(&pool_id(999))));
             out.push("state".to_string());
+        }
+    }
+}
+
+/// Systematic small-scope schedules (search mode / thorough): tiny two-thread programs on a level with
+/// 0-2 pre-loaded orders, every schedule with at most two context switches (thread 0 runs k steps,
+/// thread 1 runs m steps, thread 0 finishes, thread 1 finishes), k in 0..=8, m in 0..=16.
+pub fn gen_concx(seed: u64, nprogs: u64, out: &Sink) {
+    let mut r0 = Rng::new(seed ^ 0x434f_4e58);
+    let mut case = 0u64;
+    for _ in 0..nprogs {
+        let mut r = r0.fork();
+        let price = 100u64;
+        let npre = r.below(3);
+        let mut pre: Vec<Order> = Vec::new();
+        for i in 0..npre {
+            let kind = *r.pick(&[0u8, 5, 6]);
+            let o = mk_order(kind, pool_id(1 + i), price, r.range(1, 9), if kind >= 5 { r.below(10) } else { 0 }, r.below(3),
+                             if r.chance(1, 2) { None } else { Some(r.range(0, 5)) }, r.chance(2, 3), Side::Sell, r.range(1, 9), TimeInForce::Gtc);
+            pre.push(o);
+        }
+        let target = pool_id(1 + r.below(npre.max(1)));
+        let kind = *r.pick(&[0u8, 5, 6]);
+        let fresh = mk_order(kind, pool_id(50), price, r.range(1, 9), if kind >= 5 { r.below(10) } else { 0 }, r.below(3),
+                             None, true, Side::Sell, r.range(1, 9), TimeInForce::Gtc);
+        let op0 = match r.below(4) {
+            0 | 1 => format!("add~{}", show_order(&fresh)),
+            2 => format!("amend~{}~{}", show_id(&target), r.range(0, 12)),
+            _ => format!("cancel~{}", show_id(&target)),
+        };
+        let op1 = match r.below(5) {
+            0 | 1 | 2 => format!("match~{}~{}", r.range(1, 40), show_id(&pool_id(900))),
+            3 => format!("cancel~{}", show_id(&target)),
+            _ => format!("amend~{}~{}", show_id(&target), r.range(0, 12)),
+        };
+        for k in 0..=8u64 {
+            for m in 0..=16u64 {
+                out.push(format!("case {case}"));
+                case += 1;
+                out.push(format!("new {price}"));
+                for o in &pre {
+                    out.push(format!("add {}", show_order(o)));
+                }
+                out.push(format!("conc.thread 0 {op0}"));
+                out.push(format!("conc.thread 1 {op1}"));
+                let mut sched: Vec<&str> = Vec::new();
+                for _ in 0..k { sched.push("0"); }
+                for _ in 0..m { sched.push("1"); }
+                for _ in 0..30 { sched.push("0"); }
+                for _ in 0..40 { sched.push("1"); }
+                out.push(format!("conc.run {}", sched.join(",")));
+                out.push("state".to_string());
+                out.push(format!("match {} {}", 1u64 << 40, show_id(&pool_id(999))));
+                out.push("state".to_string());
+            }
         }
     }
 }
